@@ -460,6 +460,21 @@ def background_script(rng, slots=False):
     return ev
 
 
+def rejected_datagram_field(rng, kind, b):
+    b = bytearray(b)
+    if kind == "service":
+        b[0:2] = rng.choice((b"\xff\xfe", b"\x00\x00", b"\x22\x22", b"\x81\x00"))
+    elif kind == "method":
+        b[2:4] = rng.choice((b"\x81\x01", b"\x00\x00", b"\x01\x00", b"\xff\xff"))
+    elif kind == "interface_version":
+        b[13] = rng.choice((0, 2, 0xFF))
+    elif kind == "message_type":
+        b[14] = rng.choice((0, 1, 0x80, 0x81))
+    elif kind == "return_code":
+        b[15] = rng.choice((1, 2, 10))
+    return bytes(b)
+
+
 def rejected_datagram(rng, kind):
     """a datagram the discovery endpoint must reject entirely"""
     # a valid, consequential SD payload: would change state if it were processed
@@ -480,6 +495,18 @@ def rejected_datagram(rng, kind):
         b[14] = rng.choice((0, 1, 0x80, 0x81, 0x42))
     elif kind == "return_code":
         b[15] = rng.choice((1, 2, 10))
+    elif kind == "fields_permuted":
+        # every identifying field holds a value that is right for ANOTHER field: service and method id swapped, and / or the
+        # values 1 (interface version), 2 (NOTIFICATION), 0 (E_OK) rotated among the three one-byte fields (1 = REQUEST_NO_RETURN
+        # and E_NOT_OK, 2 = E_UNKNOWN_SERVICE, 0 = REQUEST are all legal values there)
+        how = rng.choice(("ids", "bytes", "both"))
+        if how in ("ids", "both"):
+            b[0:2], b[2:4] = b[2:4], b[0:2]
+        if how in ("bytes", "both"):
+            b[13], b[14], b[15] = rng.choice(((2, 1, 0), (0, 2, 1), (2, 0, 1), (1, 0, 2), (0, 1, 2)))
+    elif kind == "two_fields":
+        for k2 in rng.sample(("service", "method", "interface_version", "message_type", "return_code"), 2):
+            b = bytearray(rejected_datagram_field(rng, k2, b))
     elif kind == "undecodable_payload":
         lay = corpus.Layout()
         sl, _ = corpus.gen_sd_payload(rng)
@@ -505,7 +532,7 @@ def rejected_datagram(rng, kind):
     return bytes(b)
 
 
-REJECT_KINDS = ("service", "method", "interface_version", "message_type", "return_code", "undecodable_payload",
+REJECT_KINDS = ("service", "method", "interface_version", "message_type", "return_code", "fields_permuted", "two_fields", "undecodable_payload",
                 "unicode_payload", "garbage", "bad_version", "truncated")
 
 
